@@ -393,7 +393,249 @@ def gen_kernels(repo="/repo"):
     return "\n".join(out), errors
 
 
-GENERATORS = {"Kernels.v": gen_kernels}
+# ----------------------------------------------------------------------------------------------
+# straight-line integer code (T3): a statement range of a method -> a Gallina function into option
+# ----------------------------------------------------------------------------------------------
+
+def _assigned_simple(stmts):
+    out = []
+    for s in stmts:
+        if isinstance(s, ast.Assign) and len(s.targets) == 1:
+            t = s.targets[0]
+            if isinstance(t, ast.Name):
+                out.append(ident(t.id))
+            elif isinstance(t, ast.Tuple):
+                out += [ident(e.id) for e in t.elts]
+            else:
+                raise Unsupported("target " + ast.unparse(t))
+        elif isinstance(s, ast.AugAssign) and isinstance(s.target, ast.Name):
+            out.append(ident(s.target.id))
+        elif isinstance(s, ast.Expr) and isinstance(s.value, ast.Call) and ast.unparse(s.value.func).endswith(".append"):
+            out.append(ident(s.value.func.value.id))
+        else:
+            raise Unsupported("statement in branch: " + ast.unparse(s)[:60])
+    res = []
+    for n in out:
+        if n not in res:
+            res.append(n)
+    return res
+
+
+class StraightLine:
+    """Translate a list of statements to nested lets ending in [Some outputs]; `raise` -> None."""
+
+    def __init__(self, cx: Ctx, skip_targets=(), capture_calls=None):
+        self.cx = cx
+        self.skip = set(skip_targets)
+        self.capture_calls = capture_calls or {}   # python call text prefix -> output name
+        self.lists = set()
+
+    def texpr(self, e):
+        """expression that may be a tuple / list comprehension"""
+        if isinstance(e, ast.Tuple):
+            return "(" + ", ".join(self.texpr(x) for x in e.elts) + ")"
+        if isinstance(e, ast.ListComp):
+            if len(e.generators) != 1 or e.generators[0].ifs:
+                raise Unsupported("list comprehension form")
+            g = e.generators[0]
+            if not (isinstance(g.iter, ast.Call) and ast.unparse(g.iter.func) == "range" and len(g.iter.args) == 1
+                    and isinstance(g.target, ast.Name)):
+                raise Unsupported("comprehension iterator")
+            return f"(map (fun {ident(g.target.id)} => {self.texpr(e.elt)}) (zrange {expr(g.iter.args[0], self.cx)}))"
+        if isinstance(e, ast.List):
+            return "[" + "; ".join(self.texpr(x) for x in e.elts) + "]"
+        return expr(e, self.cx)
+
+    def block(self, stmts, final, ind=1):
+        pad = "  " * ind
+        if not stmts:
+            return pad + final
+        s, rest = stmts[0], stmts[1:]
+        cont = lambda: self.block(rest, final, ind)
+        # docstrings / logging
+        if isinstance(s, ast.Expr) and isinstance(s.value, ast.Constant):
+            return cont()
+        if isinstance(s, ast.Expr) and isinstance(s.value, ast.Call):
+            f = ast.unparse(s.value.func)
+            if f.startswith("logger.") or f.startswith("self.logger."):
+                return cont()
+            if f in self.capture_calls:
+                name = self.capture_calls[f]
+                args = s.value.args
+                val = expr(args[0], self.cx)
+                return f"{pad}let {name} := {val} in\n" + cont()
+            if f.endswith(".append") and isinstance(s.value.func.value, ast.Name):
+                x = ident(s.value.func.value.id)
+                return f"{pad}let {x} := {x} ++ [{self.texpr(s.value.args[0])}] in\n" + cont()
+            raise Unsupported("call statement " + ast.unparse(s)[:60])
+        if isinstance(s, ast.Assign) and len(s.targets) == 1:
+            t = s.targets[0]
+            if isinstance(t, ast.Name) and t.id in self.skip:
+                return cont()
+            if isinstance(t, ast.Name) and isinstance(s.value, ast.JoinedStr):
+                return cont()
+            if isinstance(t, ast.Tuple) and isinstance(s.value, ast.Call) and ast.unparse(s.value.func) == "divmod":
+                a, b = (expr(x, self.cx) for x in s.value.args)
+                q, r = (ident(e.id) for e in t.elts)
+                return f"{pad}let '({q}, {r}) := py_divmod {a} {b} in\n" + cont()
+            if isinstance(t, ast.Name):
+                return f"{pad}let {ident(t.id)} := {self.texpr(s.value)} in\n" + cont()
+            raise Unsupported("assign " + ast.unparse(s)[:60])
+        if isinstance(s, ast.AugAssign) and isinstance(s.target, ast.Name) and type(s.op) in BIN:
+            x = ident(s.target.id)
+            return f"{pad}let {x} := ({x} {BIN[type(s.op)]} {expr(s.value, self.cx)}) in\n" + cont()
+        if isinstance(s, ast.If):
+            body = [b for b in s.body if not (isinstance(b, ast.Assign) and isinstance(b.value, ast.JoinedStr))]
+            if body and isinstance(body[-1], ast.Raise):
+                if len(body) != 1 or s.orelse:
+                    raise Unsupported("raise branch with other statements")
+                exc = ast.unparse(body[-1].exc.func) if isinstance(body[-1].exc, ast.Call) else ast.unparse(body[-1].exc)
+                if exc != "ValueError":
+                    raise Unsupported("raise of " + exc)
+                return f"{pad}if {bexpr(s.test, self.cx)} then None else\n" + cont()
+            names = _assigned_simple(body)
+            for n in _assigned_simple(s.orelse):
+                if n not in names:
+                    names.append(n)
+            if s.test and isinstance(s.test, ast.Attribute):
+                raise Unsupported("attribute test " + ast.unparse(s.test))
+            tb = self.block(body, tupv(names), ind + 2)
+            eb = self.block(s.orelse, tupv(names), ind + 2) if s.orelse else "  " * (ind + 2) + tupv(names)
+            return f"{pad}let {tup(names)} := if {bexpr(s.test, self.cx)} then (\n{tb}) else (\n{eb}) in\n" + cont()
+        raise Unsupported("statement " + type(s).__name__ + ": " + ast.unparse(s)[:60])
+
+
+def _method(repo, relpath, cls, name):
+    mod = ast.parse(open(f"{repo}/{relpath}").read())
+    for node in mod.body:
+        if isinstance(node, ast.ClassDef) and node.name == cls:
+            for f in node.body:
+                if isinstance(f, ast.FunctionDef) and f.name == name:
+                    return f
+    raise Unsupported(f"{cls}.{name} not found in {relpath}")
+
+
+def _slice_stmts(fn, first_pred, last_pred):
+    body = fn.body
+    i0 = next((i for i, s in enumerate(body) if first_pred(s)), None)
+    i1 = next((i for i, s in enumerate(body) if last_pred(s)), None)
+    if i0 is None or i1 is None or i1 < i0:
+        raise Unsupported(f"{fn.name}: anchor statements not found")
+    return body[i0:i1 + 1], body[i1 + 1:]
+
+
+def gen_plan(repo="/repo"):
+    """Gen/Plan.v: the block plan of FilReader.read_plan and PFITSReader.read_plan, and the seek arithmetic of
+    FileReader._seek_set / cur_data_pos_stream."""
+    out = ["(* GENERATED by tools/py2coq from sigpyproc/readers.py and sigpyproc/io/fileio.py -- do not edit *)",
+           "From Coq Require Import ZArith List Bool.", "Require Import SPP.Base.Rt.", "Import ListNotations.", "Open Scope Z_scope.", ""]
+    errors = []
+    attr = {"self.header.nchans": "nchans", "self.samp_stride": "samp_stride", "self.header.nsamples": "hdr_nsamples"}
+    for cls, defname in (("FilReader", "fil_plan"), ("PFITSReader", "pfits_plan")):
+        try:
+            fn = _method(repo, "sigpyproc/readers.py", cls, "read_plan")
+            is_first = lambda s: isinstance(s, ast.Assign) and ast.unparse(s).startswith("gulp = min(")
+            def is_last(s):
+                return isinstance(s, ast.If) and "blocks.append" in ast.unparse(s)
+            stmts, after = _slice_stmts(fn, is_first, is_last)
+            cx = Ctx([], attr_map=attr)
+            sl = StraightLine(cx, skip_targets=("allocator", "read_buffer", "unpack_buffer", "data"),
+                              capture_calls={"self._file.seek": "seek0"})
+            # the buffer allocation `if self.bitsinfo.unpack:` only assigns skipped names
+            stmts2 = []
+            for s in stmts:
+                if isinstance(s, ast.If) and ast.unparse(s.test) == "self.bitsinfo.unpack":
+                    names = set(_assigned_simple(s.body) + _assigned_simple(s.orelse))
+                    if names <= {"unpack_buffer", "data"}:
+                        continue
+                    raise Unsupported("buffer branch assigns " + str(names))
+                stmts2.append(s)
+            has_seek = any(isinstance(s, ast.Expr) and isinstance(s.value, ast.Call) and ast.unparse(s.value.func) == "self._file.seek" for s in stmts2)
+            final = "Some (gulp, skipback, seek0, blocks)" if has_seek else "Some (gulp, skipback, blocks)"
+            body = sl.block(stmts2, final)
+            params = ["gulp", "start", "nsamps", "skipback"] + [x for x in cx.extra]
+            ret = "option (Z * Z * Z * list (Z * Z * Z))" if has_seek else "option (Z * Z * list (Z * Z * Z))"
+            out.append(f"(* from {cls}.read_plan: effective gulp, skipback, initial seek offset (bytes), blocks (ii, elements, skip elements) *)")
+            out.append(f"Definition {defname} " + " ".join(f"({p} : Z)" for p in params) + f" : {ret} :=\n{body}.\n")
+            # the loop header must iterate over `blocks` unpacking (ii, block, skip)
+            loop = next((s for s in after if isinstance(s, ast.For)), None)
+            if loop is None or "blocks" not in ast.unparse(loop.iter) or ast.unparse(loop.target) != "(ii, block, skip)":
+                raise Unsupported(f"{cls}.read_plan loop header changed: " + (ast.unparse(loop.iter) if loop else "none"))
+            out.append(f"(* {cls}.read_plan loop body (hand-modelled in Model/Plan.v; recorded here so a textual change is visible):")
+            for s in loop.body:
+                out.append("   " + ast.unparse(s).replace("*)", "* )").replace("(*", "( *").replace("\n", "\n   "))
+            out.append("*)\n")
+        except Unsupported as e:
+            errors.append(f"{cls}.read_plan: {e}")
+            out.append(f"(* UNSUPPORTED {cls}.read_plan: {str(e).replace('*)', '* )')} *)\n")
+    # _seek_set
+    try:
+        fn = _method(repo, "sigpyproc/io/fileio.py", "FileReader", "_seek_set")
+        txt = ast.unparse(fn)
+        cx = Ctx([], attr_map={})
+        expect = [
+            "if offset < 0 or offset >= self.sinfo.get_combined('datalen'):",
+            "fileid = np.where(offset < self.sinfo.cumsum_datalens)[0][0]",
+            "self._seek2hdr(fileid)",
+            "if fileid == 0:",
+            "self.file_obj.seek(offset, os.SEEK_CUR)",
+            "file_offset = offset - self.sinfo.cumsum_datalens[fileid - 1]",
+            "self.file_obj.seek(file_offset, os.SEEK_CUR)",
+        ]
+        for e_ in expect:
+            if e_ not in txt:
+                raise Unsupported("_seek_set: expected line not found: " + e_)
+        # translate the two conditions / expressions
+        test = fn.body[0].test
+        cx.attr_map = {}
+        class R(ast.NodeTransformer):
+            def visit_Call(self, node):
+                if ast.unparse(node) == "self.sinfo.get_combined('datalen')":
+                    return ast.Name(id="total")
+                return self.generic_visit(node)
+        cond = bexpr(R().visit(test), cx)
+        out.append("(* from FileReader._seek_set: (file index, offset added to that file's header length) or ValueError *)")
+        out.append("(* np.where(offset < cumsum)[0][0] is Rt.find_first_lt *)")
+        out.append(f"Definition seek_set (offset total : Z) (cumsum : list Z) : option (Z * Z) :=\n"
+                   f"  if {cond} then None else\n"
+                   f"  let fileid := find_first_lt offset cumsum in\n"
+                   f"  if (fileid =? 0) then Some (fileid, offset) else\n"
+                   f"  let file_offset := (offset - (nth (Z.to_nat (fileid - 1)) cumsum 0)) in\n"
+                   f"  Some (fileid, file_offset).\n")
+        fn2 = _method(repo, "sigpyproc/io/fileio.py", "FileReader", "cur_data_pos_stream")
+        t2 = ast.unparse(fn2)
+        for e_ in ["if self.ifile_cur == 0:", "return self.cur_data_pos_file",
+                   "return self.cur_data_pos_file + self.sinfo.cumsum_datalens[self.ifile_cur - 1]"]:
+            if e_ not in t2:
+                raise Unsupported("cur_data_pos_stream: expected line not found: " + e_)
+        fn3 = _method(repo, "sigpyproc/io/fileio.py", "FileReader", "cur_data_pos_file")
+        if "return self.file_obj.tell() - self.sinfo.entries[self.ifile_cur].hdrlen" not in ast.unparse(fn3):
+            raise Unsupported("cur_data_pos_file changed")
+        out.append("(* from FileReader.cur_data_pos_file / cur_data_pos_stream *)")
+        out.append("Definition cur_data_pos_stream (ifile tell hdrlen : Z) (cumsum : list Z) : Z :=\n"
+                   "  let cur_data_pos_file := (tell - hdrlen) in\n"
+                   "  if (ifile =? 0) then cur_data_pos_file else (cur_data_pos_file + (nth (Z.to_nat (ifile - 1)) cumsum 0)).\n")
+    except Unsupported as e:
+        errors.append(f"seek: {e}")
+        out.append(f"(* UNSUPPORTED seek: {str(e).replace('*)', '* )')} *)\n")
+    return "\n".join(out), errors
+
+
+GENERATORS = {"Kernels.v": gen_kernels, "Plan.v": gen_plan}
+
+# further generators live in tools/py2coq/gen_*.py, each exporting GENERATORS = {"File.v": fn(repo) -> (text, errors)}
+import glob as _glob
+import importlib.util as _ilu
+import os as _os
+for _p in sorted(_glob.glob(_os.path.join(_os.path.dirname(_os.path.abspath(__file__)), "gen_*.py"))):
+    _spec = _ilu.spec_from_file_location(_os.path.basename(_p)[:-3], _p)
+    _m = _ilu.module_from_spec(_spec)
+    try:
+        _spec.loader.exec_module(_m)
+        GENERATORS.update(getattr(_m, "GENERATORS", {}))
+    except Exception as _e:  # a broken generator module makes its files fail closed
+        _name = _os.path.basename(_p)
+        GENERATORS[f"BROKEN_{_name[:-3]}.v"] = (lambda repo, _n=_name, _e=_e: (f"(* generator module {_n} failed to load *)\n", [f"{_n}: {_e}"]))
 
 
 if __name__ == "__main__":
